@@ -198,6 +198,32 @@ fn f17() -> bool {
 
 /// F23: the recorded union (findings/F23-*.json): the whole list fails, a variable-connected part of
 /// it fails on its own as well, and the list without the requests of the failing parts solves.
+/// F18: `solve_analysis` fails in faer's SVD (`NoConvergence`) at the second level for ONE ordering of
+/// the requests, the priority loop swallows that error (F10), and the solved priority differs from
+/// the one every other ordering - and the plain `solve` of the same ordering - reports.
+fn f18() -> bool {
+    let reqs_txt = ["5 LinesAtAngleParallel 0 1 2 3 4 5 6 7", "4000000000 Fixed 3 4604438689310016836", "5 Fixed 7 4620813831573435678", "5 Fixed 6 13837744307058345975"];
+    let bits: [u64; 8] = [13842346537742296317, 4620712671000142884, 13838968102328983573, 4603727228969395261, 13828653649527055823, 4612277843892759195, 13837715805750633827, 4620784345432367444];
+    let reqs: Vec<ConstraintRequest> = reqs_txt
+        .iter()
+        .filter_map(|r| {
+            let (p, c) = r.split_once(' ')?;
+            Some(ConstraintRequest::new(ezpz_verif_harness::codec::dec_constraint(c)?, p.parse().ok()?))
+        })
+        .collect();
+    if reqs.len() != 4 {
+        return false;
+    }
+    let gs: Vec<(u32, f64)> = bits.iter().enumerate().map(|(i, b)| (i as u32, f64::from_bits(*b))).collect();
+    let cfg = || Config::default();
+    let Ok(base) = solve_analysis(&reqs, gs.clone(), cfg()) else { return false };
+    let perm: Vec<ConstraintRequest> = [3usize, 1, 2, 0].iter().map(|k| reqs[*k]).collect();
+    let Ok(other) = solve_analysis(&perm, gs.clone(), cfg()) else { return false };
+    let Ok(plain) = solve(&perm, gs, cfg()) else { return false };
+    println!("  listed order: solved priority {}; order [3,1,2,0]: solved priority {} with analysis, {} without", base.outcome.priority_solved(), other.outcome.priority_solved(), plain.priority_solved());
+    base.outcome.priority_solved() != other.outcome.priority_solved() && plain.priority_solved() == base.outcome.priority_solved()
+}
+
 fn f23() -> bool {
     let path = concat!(env!("CARGO_MANIFEST_DIR"), "/../findings/F23-a-part-of-a-group-fails-alone.json");
     let Ok(text) = std::fs::read_to_string(path) else { return false };
@@ -360,6 +386,7 @@ fn main() {
             "F15-underdetermined-lands-farther-than-1.5x" => f15(),
             "F16-null-space-drift-on-inconsistent-rank-deficient" => f16(),
             "F17-union-exhausts-iterations-beside-an-inconsistent-part" => f17(),
+            "F18-svd-no-convergence-depends-on-ordering" => f18(),
             "F23-a-part-of-a-group-fails-alone" => f23(),
             other => {
                 println!("UNKNOWN-FINDING {other}");
